@@ -59,6 +59,15 @@ def run(rep, tier):
                     rep.violation("R-C11-cache", SB, "the symbol cache is not a per-instance member (fields %s)" % [x for x in fields if "ptr" in x], r["loc"], inst)
                 else:
                     rep.ok("R-C11-cache", SB, "symbol cache is a non-static member", inst, nontrivial=False)
+                # the cache must own its keys: a key that merely views the caller's buffer changes when that buffer is reused
+                for fl in r["fields"]:
+                    c = (fl["t"] or {}).get("c") or ""
+                    if fl["n"].endswith("func_ptr_map") and c.startswith("std::map<"):
+                        key = c[len("std::map<"):]
+                        if key.startswith("std::basic_string<") or key.startswith("std::string,") or key.startswith("std::__cxx11::basic_string<"):
+                            rep.ok("R-C11-cache", SB + " [key ownership]", "cache '%s' owns its keys (%s)" % (fl["n"], c[:60]), inst)
+                        else:
+                            rep.violation("R-C11-cache", SB + " [key ownership]", "cache '%s' is keyed by a non-owning type (%s): when the caller's name buffer is reused the stored key silently reads as another name and a lookup returns the previously resolved function" % (fl["n"], c[:80]), fl.get("loc") or r["loc"], inst)
         for f in db.functions:
             if f["dep"] or "body" not in f:
                 continue
@@ -195,7 +204,7 @@ def check_cache(rep, db, f, inst, fillers):
 
         def key_is_name(obj):
             # std::string temp constructed from func_name
-            return any(e.kind == "CALL" and q.short(e.a) == "basic_string" and (e.extra or {}).get("ret") == obj and e.b and e.b[0] == name for e in evs) or obj == name
+            return any(e.kind == "CALL" and q.short(e.a) in ("basic_string", "basic_string_view") and (e.extra or {}).get("ret") == obj and e.b and e.b[0] == name for e in evs) or obj == name
 
         if not key_is_name(keyobj):
             rep.violation("R-C11-cache", site(f), "the cache is searched with a key other than the function name", f["loc"], inst)
